@@ -70,6 +70,21 @@ func concretise(sym []string, alphabet string, off int) string {
 	return sb.String()
 }
 
+// concretiseCR is concretise for replacement texts of the long walks and behaviours: a symbol directly before a newline
+// is a carriage return in one of two walk steps (editors on Windows send CRLF). To the specification and to
+// Document a carriage return is an ordinary byte of its line, so offsets and positions are unchanged.
+func concretiseCR(sym []string, alphabet string, off int) string {
+	b := []byte(concretise(sym, alphabet, off))
+	if off%2 == 1 {
+		for i := 0; i+1 < len(b); i++ {
+			if b[i] != '\n' && b[i+1] == '\n' {
+				b[i] = '\r'
+			}
+		}
+	}
+	return string(b)
+}
+
 const lower = "bcdefghijklmopqrstuvwxyz"
 const upper = "ABCDEFGHIJKLMOPQRSTUVWXYZ"
 
@@ -196,7 +211,7 @@ func edges(args []string) {
 				break // left the explored bound
 			}
 			e := es[rng.Intn(len(es))]
-			text := concretise(e.Lbl.Text, upper, s)
+			text := concretiseCR(e.Lbl.Text, upper, s)
 			var want string
 			if e.Lbl.Op == "replace" {
 				want = text
@@ -271,7 +286,7 @@ func hist(path string) {
 			if st.Lbl.Op == "init" {
 				continue
 			}
-			text := concretise(st.Lbl.Text, upper, i)
+			text := concretiseCR(st.Lbl.Text, upper, i)
 			var want string
 			if st.Lbl.Op == "replace" {
 				want = text
